@@ -1141,7 +1141,7 @@ class Interp:
         t = simp(obj.t)
         if z3.is_int_value(t) and t.as_long() in ctx.local_class:
             return None
-        if t.get_id() in ctx.known_class or not obj.classes or len(obj.classes) < 2:
+        if ctx.keep(t) in ctx.known_class or not obj.classes or len(obj.classes) < 2:
             return None
         kinds = {}
         for c in obj.classes:
